@@ -263,9 +263,9 @@ func c06() *core.Check {
 // operators) in a few sentence frames, so that every table entry takes part
 // in the differential comparison.
 func genKeywordContexts(full bool, emit func(core.Case)) {
-	frames := []string{"%s", "1 %s 1", "a %s (1)", "1;%s 1", "%s.a", "%s`a`", "1 or %s", "'a' %s 'b'", "select %s from", "(%s)", "%s(1)", "1 union %s 1 --"}
+	frames := []string{"%s", "1 %s 1", "a %s (1)", "1;%s 1", "%s.a", "%s`a`", "1 or %s", "1 %s select 1", "'a' %s 'b'", "select %s from", "(%s)", "%s(1)", "1 union %s 1 --"}
 	if !full {
-		frames = frames[:7]
+		frames = frames[:8]
 	}
 	for k, v := range keywords() {
 		if v == 'F' {
